@@ -429,8 +429,15 @@ def run_check(prop, tier, rule_fn, replay=None):
         if prop in e.get("properties", []):
             known[e["key"]] = e
     violations, knowns, triaged = [], [], list(res.triaged)
+    def lookup(key):
+        t = table.get(key)
+        if t is None:
+            for k, v in table.items():
+                if k.endswith("*") and key.startswith(k[:-1]):
+                    return v
+        return t
     for f in res.findings:
-        t = table.get(f.key)
+        t = lookup(f.key)
         if t is not None and (t.get("properties") is None or prop in t["properties"]):
             triaged.append((f, t["reason"]))
             continue
